@@ -56,6 +56,10 @@ type fe2eStep struct {
 	Idx   int    `json:"stream,omitempty"` // index of the body (wu-stream)
 	Val   int64  `json:"val,omitempty"`    // increment / new INITIAL_WINDOW_SIZE
 	GapUs int    `json:"gap_us,omitempty"` // pause before the step (data, never a verdict)
+	// Await (wu-stream): when the update makes a stream sendable that was out of stream credit (body bytes left,
+	// connection credit there), the next step waits until that stream has delivered at least one more byte - credit
+	// handed to ONE of several parked senders has to move that one, not only a later update for everybody
+	Await bool `json:"await_progress,omitempty"`
 }
 
 type fe2eCase struct {
@@ -113,6 +117,7 @@ func genFE2E(rt *rapid.T) *fe2eCase {
 		case "wu-stream":
 			st.Kind, st.Idx = "wu-stream", rapid.IntRange(0, n-1).Draw(rt, "idx")
 			st.Val = rapid.SampledFrom([]int64{1, 2, 100, 1000, 16384, 16385, 65535, 100000, 1 << 20, maxWindow}).Draw(rt, "inc")
+			st.Await = rapid.Bool().Draw(rt, "await")
 		case "wu-conn":
 			st.Kind = "wu-conn"
 			st.Val = rapid.SampledFrom([]int64{1, 100, 1000, 16384, 16385, 65535, 100000, 1 << 20, maxWindow}).Draw(rt, "inc")
@@ -801,7 +806,11 @@ func runFE2E(t ev.TB, c *fe2eCase) {
 
 	// ---- the credit script
 	executed := 0
+	var stuck string
 	for _, st := range c.Script {
+		if stuck != "" {
+			break
+		}
 		if st.GapUs > 0 {
 			time.Sleep(time.Duration(st.GapUs) * time.Microsecond)
 		}
@@ -826,11 +835,35 @@ func runFE2E(t ev.TB, c *fe2eCase) {
 				p.mu.Unlock()
 				continue
 			}
+			wasDry := s.credit <= 0
 			s.credit += inc
 			id := s.id
+			got0 := s.got
+			// only where MOSN certainly holds the rest of the body: without http2_use_stream a message is passed on when it
+			// is complete (role server: the response headers have been seen, so the whole response is inside MOSN). In
+			// streaming mode the rest may still be with the other peer, held back by MOSN's own connection-level receive
+			// window while other streams are parked - head-of-line blocking the property does not forbid.
+			// ... and only where nobody else can take the connection credit first: every other unfinished stream is out
+			// of stream credit (so this stream's sender is the only one that can move - the others are parked beside it)
+			othersDry := true
+			for _, o := range p.streams {
+				if o != s && !p.warm[o.id] && !o.ended && o.got < len(o.body) && o.credit > 0 {
+					othersDry = false
+				}
+			}
+			if len(p.byIdx) < len(bodies) {
+				othersDry = false // a stream that is still to be opened starts with credit
+			}
+			expectMove := st.Await && wasDry && s.credit > 0 && p.connCredit > 0 && s.got < len(s.body) && !c.UseStream && s.headers && othersDry
 			p.mu.Unlock()
 			_ = p.write(func() error { return p.fr.WriteWindowUpdate(id, uint32(inc)) })
 			executed++
+			if expectMove {
+				ev.Class(partFlowE2E, "awaited-progress-after-stream-update")
+				if !p.waitFor(8*time.Second, func() bool { return s.got > got0 || s.ended || p.dead != "" || p.viol != "" }) {
+					stuck = fmt.Sprintf("stream %d (body %d) was out of stream credit with %d of %d bytes delivered, got a WINDOW_UPDATE of %d while the connection had credit, and delivered nothing in 8 s", id, st.Idx, got0, len(s.body), inc)
+				}
+			}
 		case "wu-conn":
 			inc := st.Val
 			if room := maxWindow - p.connCredit; inc > room {
@@ -923,8 +956,7 @@ func runFE2E(t ev.TB, c *fe2eCase) {
 		return true
 	}
 	stalledSince := time.Time{}
-	var stuck string
-	for {
+	for stuck == "" {
 		p.mu.Lock()
 		if p.viol != "" || p.dead != "" || complete() {
 			p.mu.Unlock()
